@@ -40,7 +40,9 @@ def slice_keep(tier: str):
     def keep(j: dict) -> bool:
         if not quick:
             return True
-        fam, m = j["family"].split("/")[0], j["meta"]
+        fam, m = j["family"].split("/")[0].split("~")[0], j["meta"]
+        if j["family"].split("~")[0] in ("C10/scope", "C10/nonbinding", "C11/eqagg"):
+            return True  # small sub-families
         if fam == "C05":
             return m["kind"] in ("arith", "eq", "pool", "chain", "pair", "count")
         if fam == "C08":
@@ -95,7 +97,7 @@ def jobs(tier: str):
             # C01 only quantifies over facts of input predicates: declare every predicate of the universe as input
             upreds = sorted({(f.split("(")[0], f.count(",") + 1 if "(" in f else 0) for f in j["universe"]})
             inp = [list(p) for p in sorted({tuple(p) for p in inp} | set(upreds))]
-        fam = j["family"].split("/")[0]
+        fam = j["family"].split("/")[0].split("~")[0]
         out = last_heads(j["prog"], inp)
         tr = [TRAITS] if quick else [DEFAULT, TRAITS]
         cfgs = [config(t, inp, out, OUT_ORC) for t in tr]
@@ -105,7 +107,7 @@ def jobs(tier: str):
         return cfgs
 
     fams = ["C05", "C08", "C09", "C10", "C11", "C12", "C13", "C14", "C15", "C16"]
-    yield from compose.remap(compose.family_jobs(fams, tier), "C01", mk, keep=slice_keep(tier))
+    yield from compose.remap(compose.family_jobs(fams, tier, variants=20), "C01", mk, keep=slice_keep(tier))
     # (c) frozen inputs of the repository's tests: universe derived mechanically
     yield from corpus_tests_jobs(tier)
 
